@@ -70,8 +70,8 @@ MUTS = {
                     *i = i.wrapping_add(*d);
                 }
                 let input = &mut tmp;""")],
- 'player_old_keeps_entry': [(""".remove(cid)
-                    .ok_or(format::Error::PlayerOldWithoutNew)?;""", """.get(cid).cloned()
+ 'player_old_keeps_entry': [(""".remove(&cid)
+                    .ok_or(format::Error::PlayerOldWithoutNew)?;""", """.get(&cid).cloned()
                     .ok_or(format::Error::PlayerOldWithoutNew)?;""")],
  'growth_drops_last_byte': [("""                self.buffer
                     .reserve(if len < BUFFER_SIZE { BUFFER_SIZE } else { len });""", """                self.buffer
@@ -116,7 +116,7 @@ try:
             s = s.replace(a, b, 1)
         if not ok: continue
         open(other or F,'w').write(s)
-        r = sh('cargo build --offline --quiet', cwd=V+'/harness')
+        r = sh('cargo build --offline --quiet -j 6 --features gamenet_typed', cwd=V+'/harness')
         if r.returncode != 0:
             print(name, 'DOES NOT COMPILE\n', r.stdout[-1500:]); continue
         r = sh('TW_HANG_SECS=120 %s/harness/target/debug/tw-harness run teehist %s %s/run/mut.impl %s/run/mut.orc' % (V, req, V, V))
@@ -135,4 +135,4 @@ try:
         open(F,'w').write(orig)
 finally:
     open(F,'w').write(orig)
-    sh('cargo build --offline --quiet', cwd=V+'/harness')
+    sh('cargo build --offline --quiet -j 6 --features gamenet_typed', cwd=V+'/harness')
